@@ -264,3 +264,73 @@ func mustJSON(v any) string {
 	}
 	return string(b)
 }
+
+// ---- confusable scalars -------------------------------------------------------------------------
+
+// twinPairs are pairs of DIFFERENT scalars that sloppy comparisons identify: the same printed text under
+// two Go types, integers next to each other beyond 2^53 (equal once converted to float64), an integer and
+// the float of the same value, values that differ only by case or by surrounding space.
+func twinPair(r *rand.Rand) (W, W) {
+	const big = int64(1) << 53
+	pairs := [][2]any{
+		{1, 1.0}, {2, 2.0}, {0, 0.0}, {-1, -1.0},
+		{1, "1"}, {1.5, "1.5"}, {true, "true"}, {false, "false"}, {nil, "<nil>"}, {nil, ""}, {0, false}, {1, true}, {nil, 0},
+		{int(big + 1), int(big)}, {int(big + 1), float64(big)}, {int64(big + 3), int64(big + 2)}, {uint64(1<<63 + 1), uint64(1 << 63)},
+		{int(3), int64(3)}, {uint64(3), int(3)},
+		{"s", "S"}, {"s", "s "}, {"a b", "a  b"}, {1e21, 1e21 + 131072},
+	}
+	p := pairs[r.Intn(len(pairs))]
+	if r.Intn(2) == 0 {
+		return scalarWire(p[1]), scalarWire(p[0])
+	}
+	return scalarWire(p[0]), scalarWire(p[1])
+}
+
+// wireLeafSlots lists the positions of the leaves of w as index paths (keys / list indices).
+func wireLeafSlots(w W, prefix []any, out *[][]any) {
+	switch x := w.(type) {
+	case []any:
+		for i, e := range x {
+			wireLeafSlots(e, append(append([]any{}, prefix...), i), out)
+		}
+	case map[string]any:
+		if c, ok := x["m"].(map[string]any); ok {
+			for _, k := range sortedKeys(c) {
+				wireLeafSlots(c[k], append(append([]any{}, prefix...), k), out)
+			}
+			return
+		}
+		*out = append(*out, prefix)
+	}
+}
+
+func wireSetSlot(w W, slot []any, v W) W {
+	if len(slot) == 0 {
+		return v
+	}
+	switch x := w.(type) {
+	case []any:
+		i := slot[0].(int)
+		x[i] = wireSetSlot(x[i], slot[1:], v)
+		return x
+	case map[string]any:
+		c := x["m"].(map[string]any)
+		k := slot[0].(string)
+		c[k] = wireSetSlot(c[k], slot[1:], v)
+		return x
+	}
+	return w
+}
+
+// withTwins returns two copies of w that differ in exactly one leaf position, by a confusable pair of
+// scalars (ok=false when w has no leaf).
+func withTwins(r *rand.Rand, w W) (W, W, bool) {
+	var slots [][]any
+	wireLeafSlots(w, nil, &slots)
+	if len(slots) == 0 {
+		return nil, nil, false
+	}
+	s := slots[r.Intn(len(slots))]
+	a, b := twinPair(r)
+	return wireSetSlot(deepCopyW(w), s, a), wireSetSlot(deepCopyW(w), s, b), true
+}
